@@ -139,6 +139,19 @@ def _worker_run(args):
         return {"job": job["name"], "harness_error": traceback.format_exc()}
 
 
+def _job_main(modname, job, conn):
+    try:
+        _worker_init(job.get("curve"), modname)
+        r = _worker_run((modname, job))
+    except BaseException:
+        r = {"job": job["name"], "harness_error": traceback.format_exc()}
+    try:
+        conn.send(r)
+    finally:
+        conn.close()
+    os._exit(0)
+
+
 def _worker_case(args):
     modname, kind, case = args
     mod = importlib.import_module(modname)
@@ -180,34 +193,35 @@ def run_property(prop, tier, seed, strict=False, nproc=None):
     for j in jobs:
         j.setdefault("curve", None)
         j["tier"], j["seed"] = tier, seed
-    # group by curve
-    groups = {}
-    for j in jobs:
-        groups.setdefault(json.dumps(j["curve"]), []).append(j)
+    # one forked process per job (the parent never imports bits; a small-curve job sets the guard variable
+    # before importing it), at most nproc at a time, heaviest first
     results = []
     harness_errors = []
-    # run all groups concurrently, splitting processes proportionally to job weight
-    pools = []
-    total_w = sum(j.get("weight", 1) for j in jobs) or 1
-    for ck, js in groups.items():
-        w = sum(j.get("weight", 1) for j in js)
-        np_ = max(1, min(len(js), round(nproc * w / total_w))) if len(groups) > 1 else min(nproc, max(1, len(js)))
-        js.sort(key=lambda j: -j.get("weight", 1))
-        pool = _pool(json.loads(ck), modname, np_)
-        pools.append((pool, pool.imap_unordered(_worker_run, [(modname, j) for j in js])))
-    for pool, it in pools:
-        try:
-            for r in it:
-                if "harness_error" in r:
-                    harness_errors.append((r["job"], r["harness_error"]))
-                else:
-                    results.append(r)
-        except Exception:
-            harness_errors.append(("pool", traceback.format_exc()))
-        pool.close()
-    for pool, _ in pools:
-        pool.terminate()
-        pool.join()
+    ctx = mp.get_context("fork")
+    pending = sorted(jobs, key=lambda j: -j.get("weight", 1))
+    running = {}
+    from multiprocessing.connection import wait as _wait
+    while pending or running:
+        while pending and len(running) < nproc:
+            job = pending.pop(0)
+            rd, wr = ctx.Pipe(duplex=False)
+            pr = ctx.Process(target=_job_main, args=(modname, job, wr), daemon=True)
+            pr.start()
+            wr.close()
+            running[rd] = (pr, job)
+        for rd in _wait(list(running), timeout=5):
+            pr, job = running.pop(rd)
+            try:
+                r = rd.recv()
+            except EOFError:
+                r = {"job": job["name"], "harness_error": f"worker for job {job['name']} died without a result "
+                                                          f"(exit code {pr.exitcode})"}
+            rd.close()
+            pr.join()
+            if "harness_error" in r:
+                harness_errors.append((r["job"], r["harness_error"]))
+            else:
+                results.append(r)
 
     if harness_errors:
         for name, tb in harness_errors:
